@@ -98,6 +98,9 @@ func skGen(r *rand.Rand, iterMode bool) *skInput {
 			}
 		}
 		if iterMode && t == nt-1 {
+			if r.Intn(2) == 0 {
+				prog = append(prog, skOp{Op: "refresh", K: 1 + r.Intn(3)})
+			}
 			prog = append(prog, skOp{Op: []string{"first", "seek"}[r.Intn(2)], K: 10*r.Intn(nk+1) + 5*r.Intn(2)})
 			for k := 0; k < 2+r.Intn(4); k++ {
 				prog = append(prog, skOp{Op: "next"})
@@ -239,6 +242,9 @@ func skRun(in *skInput, sink *CaseSink, prop string) {
 					if n != nil {
 						hist = append(hist, skHist{t, i, call, stepNo, op, ok})
 					}
+				case "refresh":
+					it.SetRefreshInterval(op.K)
+					results[t] = append(results[t], "RBool true")
 				case "look":
 					itm := skiplist.NewIntKeyItem(op.K)
 					_, _, found := sl.Lookup(itm, skiplist.CompareInt, buf, &sl.Stats)
@@ -389,6 +395,8 @@ func skRun(in *skInput, sink *CaseSink, prop string) {
 				ops = append(ops, "ODeleteNode "+cZ(int64(o.K)))
 			case "look":
 				ops = append(ops, "OLookup "+cZ(int64(o.K)))
+			case "refresh":
+				ops = append(ops, fmt.Sprintf("OSetRefresh %d", o.K))
 			case "first":
 				ops = append(ops, "OSeekFirst")
 			case "seek":
